@@ -182,8 +182,23 @@ func init() {
 		if m := S(op, "hookmode"); m != "" {
 			config.Parsed.Media.Hook = []string{"verifwait", "%url", m}
 		}
+		var hookState *ui.State
 		releaseHooks := func() {
 			os.WriteFile(gate, []byte("go"), 0o644)
+			/* the gate stays open until the hook that put the interface into `opening` has been
+			   seen to exit (a hook started a moment ago may not have looked at the gate yet) */
+			if hookState != nil {
+				for waited := 0; waited < 5000; waited++ {
+					opening := false
+					if _, _, free := hookState.VerifTrySettledHookHeld(); free {
+						hookState.VerifLocked(func() { opening = hookState.VerifMode() == 4 })
+						if !opening {
+							break
+						}
+					}
+					time.Sleep(time.Millisecond)
+				}
+			}
 			time.Sleep(40 * time.Millisecond)
 			os.Remove(gate)
 		}
@@ -221,6 +236,7 @@ func init() {
 			prevHeight = -1
 			fm.Unlock()
 		}
+		hookState = s
 		snaps := []any{}
 		op["keys_sub"] = []any{}
 		/* the address typed after :open goes through url.Parse like every other: its record goes
@@ -283,6 +299,56 @@ func init() {
 				if !waitSettledHeld(s) {
 					return map[string]any{"wedged": "after a resize while loading", "snaps": snaps}
 				}
+				snaps = append(snaps, s.VerifSnapshot())
+				continue
+			}
+			if strings.HasPrefix(k, "HELDS\x1f") {
+				/* HELDS <starter> <during>...: the starter (j, k, space, c, r, a) leaves the loads of
+				   the surroundings in flight, held by the simulator; the remaining tokens - none of
+				   which looks at the surroundings or starts a page load - arrive while they are, and
+				   only then the simulator answers.  The settled state is the one of the same tokens
+				   typed one by one. */
+				parts := strings.Split(k, "\x1f")[1:]
+				atomic.StoreInt32(&simHold, 1)
+				jtp.VerifCachePurge()
+				for _, b := range keyBytes(parts[0]) {
+					send(b)
+				}
+				ok, inflight := waitHeldOrSettled(s)
+				if !ok {
+					atomic.StoreInt32(&simHold, 0)
+					return map[string]any{"wedged": "while the simulator held the requests", "snaps": snaps}
+				}
+				_, _, free := s.VerifTrySettledHookHeld()
+				if !free {
+					/* a loader keeps the mutex while it waits: nothing can be delivered before it is answered */
+					atomic.StoreInt32(&simHold, 0)
+					if !waitSettledHeld(s) {
+						return map[string]any{"wedged": "after a held load", "snaps": snaps}
+					}
+				}
+				if !inflight {
+					for _, d := range parts[1:] {
+						if strings.HasPrefix(d, "RESIZE ") {
+							var w, h int
+							fmt.Sscanf(d, "RESIZE %d %d", &w, &h)
+							resize(w, h)
+							continue
+						}
+						if d == "HOOKDONE" {
+							releaseHooks()
+							continue
+						}
+						for _, b := range keyBytes(d) {
+							send(b)
+						}
+					}
+				}
+				atomic.StoreInt32(&simHold, 0)
+				if !waitSettledHeld(s) {
+					return map[string]any{"wedged": "after keys typed while the surroundings were loading", "snaps": snaps}
+				}
+				heldFlags = append(heldFlags, inflight)
 				snaps = append(snaps, s.VerifSnapshot())
 				continue
 			}
@@ -471,6 +537,14 @@ func genUI(r *rand.Rand, n int, emit func(Op)) {
 				/* links to other objects of the world, selectable by number */
 				fields["content"] = "see " + pick(r, notes) + " and " + pick(r, []string{aliceURL, bobURL, pick(r, notes)}) + " end"
 			}
+			if len(notes) > 0 && r.Intn(9) == 0 {
+				/* more links than one digit can name: 10, 11, 12 are links, 010 is not the eighth */
+				words := []string{"many:"}
+				for k := 0; k < 9+r.Intn(5); k++ {
+					words = append(words, pick(r, []string{aliceURL, bobURL, pick(r, notes), pick(r, notes)}))
+				}
+				fields["content"] = strings.Join(words, " ")
+			}
 			if author != nil {
 				fields["attributedTo"] = author
 			}
@@ -569,7 +643,7 @@ func genUI(r *rand.Rand, n int, emit func(Op)) {
 		long := r.Intn(14) == 0
 		if long {
 			/* a long session: hundreds of tokens, a deep history */
-			nk = 120 + r.Intn(180)
+			nk = 100 + r.Intn(120)
 		}
 		feedNames := []string{"home", "mixed", "one", "none", "unknown", "", " home", "home ", "Home", "home\x00", "ho me"}
 		rawBytes := func(n int) string {
@@ -606,7 +680,7 @@ func genUI(r *rand.Rand, n int, emit func(Op)) {
 			case 6:
 				/* numbers: leading zeros, more digits than there are links, the edges of the integer
 				   types, followed by every kind of key */
-				num := pick(r, []string{"01", "02", "007", "00", "000", "10", "11", "100", "4", "5", "6", "8", "9", "21", "0000000000000000000001", "00000000000000000000000000000002",
+				num := pick(r, []string{"01", "02", "007", "00", "000", "10", "11", "100", "010", "08", "09", "012", "0x1", "1_0", "4", "5", "6", "8", "9", "21", "0000000000000000000001", "00000000000000000000000000000002",
 					"9223372036854775807", "9223372036854775808", "18446744073709551615", "18446744073709551617", "4294967297", "2147483648"})
 				keys = append(keys, num+pick(r, []string{".", ".", "\r", "\r", "\x1b", "\x7f", "\x7f.", "\x7f\r", "\x7f\x7f.", "\x7f\x7f\x7f", "j", "k", " ", "g", "h", ":", "o", "\n", ".."}))
 			case 7:
@@ -762,6 +836,47 @@ func genUI(r *rand.Rand, n int, emit func(Op)) {
 					keys = append(keys[:at:at], append([]any{resize}, keys[at:]...)...)
 				}
 			}
+		}
+		/* keys that arrive while the surroundings of a page are still loading (the page itself
+		   is there): everything but j and k, which look at what has been loaded so far */
+		if r.Intn(3) == 0 {
+			for n := 1 + r.Intn(2); n > 0; n-- {
+				/* the starter begins in normal mode; every token in between leaves no command line or
+				   number open (an open command line would turn later keys into an :open), only the
+				   last one may */
+				tok := "HELDS\x1f\x1b" + pick(r, []string{" ", " ", "j", "k", "c", "a", "r", "jj", "kk"})
+				for k := 1 + r.Intn(6); k > 0; k-- {
+					tok += "\x1f" + pick(r, []string{"g", "h", "h", "l", " ", " ", "c", "r", "a", "o", "p", "b", "\x1b", "\x7f", ":x\x1b", ":open x\x1b", "1\x1b", "12\x7f\x7f", "0.", "99.", ":\r", ":bogus x\r", ":feed unknown\r",
+						"\x00", "é", "Z", fmt.Sprintf("RESIZE %d %d", 1+r.Intn(120), 2+r.Intn(58)), fmt.Sprintf("RESIZE %d %d", 1+r.Intn(8), 2+r.Intn(3))})
+				}
+				if r.Intn(3) == 0 {
+					tok += "\x1f" + pick(r, []string{"1", "12\x7f", ":open x\x7f", ":x", ":", "o"})
+				}
+				ins := []any{tok}
+				if r.Intn(2) == 0 {
+					ins = append(ins, pick(r, []string{"h", "l", "j", "k"}))
+				}
+				at := r.Intn(len(keys) + 1)
+				keys = append(keys[:at:at], append(ins, keys[at:]...)...)
+			}
+		}
+		/* every kind of status line and the loading frame on the smallest terminals: two or three
+		   rows, or a handful of columns */
+		if r.Intn(4) == 0 {
+			tw, th := uiW, pick(r, []int{2, 2, 3, 3, 4})
+			if r.Intn(3) == 0 {
+				tw, th = 1+r.Intn(8), pick(r, []int{2, 3, 5, 24})
+			}
+			block := []any{fmt.Sprintf("RESIZE %d %d", tw, th)}
+			for k := 2 + r.Intn(5); k > 0; k-- {
+				block = append(block, pick(r, []string{":bogus x\r", ":feed unknown\r", "1", "12\x1b", ":", ":op", "\x1b", "o", "p", "1\r", "HOOKDONE", "j", "k", " ", ":open " + pick(r, starts) + "\r", ":feed mixed\r", "g", "h"}))
+			}
+			block = append(block, "HOOKDONE")
+			if r.Intn(2) == 0 {
+				block = append(block, fmt.Sprintf("RESIZE %d %d", 20+r.Intn(100), 2+r.Intn(50)))
+			}
+			at := r.Intn(len(keys) + 1)
+			keys = append(keys[:at:at], append(block, keys[at:]...)...)
 		}
 		/* a second outbox (bob's) and feeds merging outboxes, threads and collections */
 		bacts := []any{}
